@@ -441,6 +441,213 @@ def _e_move_distinct(a, r):
   return True
 
 
+# ---------------------------------------------------------------------------------------------
+# Position columns that were REBUILT (table renamed, column renamed, retyped, document reloaded,
+# rename undone, ...) and are then used: mid-table inserts, enough inserts at one place to force
+# relabelling, a move and an append.  2-state contract on Engine.apply_user_actions, checked
+# after EVERY action, on every position column of the table.
+POS_PREFIXES = ("none", "rename_table", "rename_table_twice", "rename_table_undone", "rename_position_column",
+                "rename_other_column", "retype_other_column", "add_column", "remove_column", "reload",
+                "retype_position_column_and_back")
+POS_MID = ("none", "two-mid", "bulk-mid", "mid+remove")
+
+
+def _poshist_cases(tier, seed):
+  n = 0
+  for prefix in POS_PREFIXES:
+    for col in ("manualSort", "pos"):
+      if prefix == "rename_position_column" and col != "pos": continue
+      if prefix == "retype_position_column_and_back" and col != "pos": continue
+      for mid in POS_MID:
+        for spot in ("middle", "first", "inserted"):
+          n += 1
+          if tier == "quick" and spot != "middle" and (n + seed) % 2:
+            continue                      # quick: the 'middle' place always, the others every 2nd
+          yield dict(prefix=prefix, col=col, mid=mid, spot=spot,
+                     crowd=58 if tier == "quick" else 110)
+
+
+def _table_positions(e, t):
+  """{col_id: {row_id: value}} for every position column of table t (engine's own schema)."""
+  td = e.fetch_table(t)
+  return {c: dict(zip(td.row_ids, td.columns[c])) for (tt, c) in position_columns(e) if tt == t}
+
+
+def _step_failures(before, after, requests):
+  """Specification of one step, from the statement, for one position column.
+     before/after: {row: position}; requests: {row: requested position} for the rows the step
+     added or moved (a new row without an explicit request asks for +inf = the end).
+     - all positions finite and pairwise distinct;
+     - rows that were there before (and were not moved by the step) keep their relative order;
+     - every added / moved row lies after every such row whose OLD position is < its request and
+       before every such row whose old position is >= its request;
+     - added rows with different requests are ordered like their requests."""
+  fails = []
+  vals = list(after.values())
+  if not all(isinstance(v, (int, float)) and not isinstance(v, bool) and math.isfinite(v) for v in vals):
+    return [("C20.all_finite_distinct", "non-finite position: %r" % (after,))]
+  if len(set(vals)) != len(vals):
+    dup = sorted(v for v in set(vals) if vals.count(v) > 1)
+    fails.append(("C20.all_finite_distinct", "duplicate positions %r" % (dup[:4],)))
+  kept = [r for r in before if r in after and r not in requests]
+  o1 = sorted(kept, key=lambda r: (before[r], r))
+  o2 = sorted(kept, key=lambda r: (after[r], r))
+  if o1 != o2:
+    i = [x != y for x, y in zip(o1, o2)].index(True)
+    fails.append(("C20.existing_order_kept", "rows kept from before changed order: %r... -> %r..."
+                  % (o1[max(0, i - 2):i + 4], o2[max(0, i - 2):i + 4])))
+  for r, k in requests.items():
+    if r not in after: continue
+    bad = [x for x in kept if not ((after[x] < after[r]) if before[x] < k else (after[r] < after[x]))]
+    if bad:
+      fails.append(("C20.new_at_requested_place",
+                    "row %r requested %r got %r; row %r had %r, now %r" %
+                    (r, k, after[r], bad[0], before[bad[0]], after[bad[0]])))
+      break
+  rr = sorted(requests.items(), key=lambda kv: kv[1])
+  for (r1, k1), (r2, k2) in zip(rr, rr[1:]):
+    if k1 < k2 and r1 in after and r2 in after and not after[r1] < after[r2]:
+      fails.append(("C20.new_keep_request_order", "requests %r < %r got %r, %r" % (k1, k2, after[r1], after[r2])))
+      break
+  return fails
+
+
+def _poshist_call(a):
+  from vlib.rtc import eng
+  import engine as _engine
+  e = eng.new_engine()
+  eng.apply(e, [["AddTable", "T", [{"id": "a", "type": "Int", "isFormula": False, "formula": ""},
+                                   {"id": "b", "type": "Text", "isFormula": False, "formula": ""},
+                                   {"id": "pos", "type": "PositionNumber", "isFormula": False, "formula": ""}]],
+                ["BulkAddRecord", "T", [None] * 5, {"a": [1, 2, 3, 4, 5]}]])
+  S = {"e": e, "t": "T", "col": a["col"], "log": [], "fails": [], "steps": 0, "relabels": 0}
+
+  def step(action, new_requests=None, moved=None):
+    """Applies one action; new_requests: list of requested positions of the rows it adds (None =
+    no explicit request); moved: {row: request}."""
+    e, t = S["e"], S["t"]
+    before = _table_positions(e, t)
+    S["log"].append(action)
+    try:
+      group = eng.apply(e, [action])
+    except Exception as ex:
+      S["fails"].append(("C20.total", "step %d %r raised %r" % (S["steps"], action, ex)))
+      return False
+    S["steps"] += 1
+    if action[0] == "RenameTable": S["t"] = action[2]
+    if action[0] == "ApplyUndoActions": S["t"] = "T"
+    after = _table_positions(e, S["t"])
+    added = []
+    if new_requests is not None:
+      rv = group.retValues[0]
+      added = list(rv) if isinstance(rv, (list, tuple)) else [rv]
+    for c in after:
+      if c not in before: continue
+      req = {}
+      for r, k in zip(added, new_requests or []):
+        req[r] = k if (c == S["col"] and k is not None) else INF
+      for r, k in (moved or {}).items():
+        if c == S["col"]: req[r] = k
+      if sum(1 for r in before[c] if r in after[c] and r not in req and before[c][r] != after[c][r]):
+        S["relabels"] += 1
+      fs = _step_failures(before[c], after[c], req)
+      if fs:
+        S["fails"] += [(cl, "step %d %r, column %s: %s" % (S["steps"] - 1, action, c, d)) for cl, d in fs]
+        return False
+    return True
+
+  def plain(*actions):                          # schema-level prefix actions: order and values kept
+    for act in actions:
+      if not step(act): return False
+    return True
+
+  def pos_of(r):
+    return _table_positions(S["e"], S["t"])[S["col"]][r]
+
+  p = a["prefix"]
+  ok = True
+  if p == "rename_table":
+    ok = plain(["RenameTable", "T", "Renamed"])
+  elif p == "rename_table_twice":
+    ok = plain(["RenameTable", "T", "Renamed"], ["RenameTable", "Renamed", "T"])
+  elif p == "rename_table_undone":
+    g = eng.apply(e, [["RenameTable", "T", "Renamed"]])
+    S["log"].append(["RenameTable", "T", "Renamed"])
+    S["t"] = "Renamed"
+    ok = plain(["ApplyUndoActions", eng.undo_reprs(g)])
+  elif p == "rename_position_column":
+    ok = plain(["RenameColumn", "T", "pos", "place"]); S["col"] = "place"
+  elif p == "rename_other_column":
+    ok = plain(["RenameColumn", "T", "a", "a2"])
+  elif p == "retype_other_column":
+    ok = plain(["ModifyColumn", "T", "a", {"type": "Text"}])
+  elif p == "add_column":
+    ok = plain(["AddColumn", "T", "z", {"type": "Any", "isFormula": True, "formula": "$a"}])
+  elif p == "remove_column":
+    ok = plain(["RemoveColumn", "T", "b"])
+  elif p == "retype_position_column_and_back":
+    ok = plain(["ModifyColumn", "T", "pos", {"type": "Numeric"}])
+    if ok:
+      # while the column is Numeric it is not a position column: no clause applies to this step
+      eng.apply(e, [["ModifyColumn", "T", "pos", {"type": "PositionNumber"}]])
+      S["log"].append(["ModifyColumn", "T", "pos", {"type": "PositionNumber"}])
+  elif p == "reload":
+    f = _engine.Engine()
+    rest = f.load_meta_tables(e.fetch_table("_grist_Tables"), e.fetch_table("_grist_Tables_column"))
+    for t in rest:
+      f.load_table(e.fetch_table(t, formulas=False))
+    f.load_done()
+    S["e"] = e = f
+    S["log"].append("<document reloaded into a fresh engine>")
+  t = S["t"]
+
+  def insert_before(row):
+    return step(["AddRecord", S["t"], None, {S["col"]: pos_of(row)}], new_requests=[pos_of(row)])
+
+  if ok and a["mid"] == "two-mid":
+    ok = insert_before(2) and insert_before(4)
+  elif ok and a["mid"] == "bulk-mid":
+    ks = [pos_of(2), pos_of(2), pos_of(5)]
+    ok = step(["BulkAddRecord", t, [None] * 3, {S["col"]: ks}], new_requests=ks)
+  elif ok and a["mid"] == "mid+remove":
+    ok = insert_before(3) and step(["RemoveRecord", t, 2]) and step(["AddRecord", t, None, {}], new_requests=[None])
+  rows = sorted(_table_positions(S["e"], t)[S["col"]])
+  order = sorted(rows, key=pos_of) if ok else rows
+  target = {"middle": 3, "first": order[0], "inserted": max(rows)}[a["spot"]]
+  i = 0
+  while ok and i < a["crowd"]:
+    if i % 19 == 18:                          # now and then two rows at the place in one action
+      k = pos_of(target)
+      ok = step(["BulkAddRecord", t, [None, None], {S["col"]: [k, k]}], new_requests=[k, k]); i += 2
+    else:
+      ok = insert_before(target); i += 1
+  if ok:                                       # a move into the crowded place, a move to the end, an append
+    k = pos_of(target)
+    ok = step(["UpdateRecord", t, 1, {S["col"]: k}], moved={1: k})
+  if ok:
+    ok = step(["UpdateRecord", t, target, {S["col"]: INF}], moved={target: INF})
+  if ok:
+    ok = step(["AddRecord", t, None, {}], new_requests=[None])
+  return {"fails": S["fails"], "steps": S["steps"], "relabels": S["relabels"],
+          "history": S["log"] if S["fails"] else None}
+
+
+POSHIST_CLAUSES = ("C20.total", "C20.all_finite_distinct", "C20.existing_order_kept",
+                   "C20.new_at_requested_place", "C20.new_keep_request_order")
+
+
+def _poshist_clause(name):
+  def pred(a, r):
+    for c, d in r["fails"]:
+      if c == name: return d
+    return True
+  return pred
+
+
+def _poshist_classify(a, clause, detail):
+  return "engine-history:%s" % clause.split(".", 1)[1]
+
+
 def _monitor_base():
   from vlib.rtc import explore
   return explore.Monitor
@@ -659,6 +866,15 @@ def main():
                               "C20.positions_distinct_finite_after_move": _e_move_distinct},
     classify=lambda a, clause, detail: clause)
   fn.check(rep, moves, _move_cases, exhaustive=True, limit_quick_s=30, limit_thorough_s=200,
+           warm_engine=True)
+
+  # the same 2-state contract along histories on position columns that were rebuilt first
+  poshist = fn.FnContract(
+    name="Engine.apply_user_actions (position columns used after the column object was rebuilt)",
+    call=_poshist_call, ensures={c: _poshist_clause(c) for c in POSHIST_CLAUSES},
+    classify=_poshist_classify,
+    nontrivial=lambda a, r, exc: r is not None and (r["relabels"] > 0 or bool(r["fails"])))
+  fn.check(rep, poshist, _poshist_cases, exhaustive=True, limit_quick_s=40, limit_thorough_s=300,
            warm_engine=True)
 
   from vlib.rtc import explore
